@@ -50,14 +50,14 @@ package tree
 
 //@ closure Init.$rule
 //@   requires RT()
-//@   ensures  RT()
-//@   ensures  result == OK(r, old(position))
-//@   ensures  imp(result, position == END(r, old(position)) && old(position) <= position)
-//@   ensures  imp(!result, position == old(position) && tokenIndex == old(tokenIndex))
-//@   ensures  imp(result, live() == APP(r, old(position), old(live())) && tokenIndex >= old(tokenIndex))
-//@   ensures  forall(j, imp(j <= old(tokenIndex), absAt(j) == old(absAt(j))))
-//@   ensures  maxToken == MX(r, old(position), old(maxToken))
-//@   ensures  imp(AS(r), result)
+//@   ensures[C13] RT()
+//@   ensures[C01] result == OK(r, old(position))
+//@   ensures[C01] imp(result, position == END(r, old(position)) && old(position) <= position)
+//@   ensures[C01,C03] imp(!result, position == old(position) && tokenIndex == old(tokenIndex))
+//@   ensures[C03] imp(result, live() == APP(r, old(position), old(live())) && tokenIndex >= old(tokenIndex))
+//@   ensures[C03] forall(j, imp(j <= old(tokenIndex), absAt(j) == old(absAt(j))))
+//@   ensures[C11] maxToken == MX(r, old(position), old(maxToken))
+//@   ensures[C01] imp(AS(r), result)
 //@   modifies var position, tokenIndex, tree, maxToken
 //@   modifies Elems.DT_token at b where true
 //@   modifies MapDom.DT_memoKey!DT_memo, MapVal.DT_memoKey!DT_memo at b where true
